@@ -10,6 +10,18 @@ CHECKS = {
             "Decides structural necessary conditions of the ordinal-sequence behaviour on the current source: normaliser = specification on all integers, only normalised positions index storage, slot gates, slice-bound forms, search convention, loop progress, commit-last, no zero ordinals. Not the behaviour over histories.",
             "go/types+go/cfg of x/tools v0.29.0; the spec tables in checker/c01.go; loop-carried element placement is not decided",
             "DESIGN.md 5/C01"),
+    "C04": ("static analysis: post-construction write sets and lock-region must-analysis on go/cfg (EFFECT), dominance/pairing rules (PATH) over the queue's methods",
+            "Decides the race-freedom and ordering preconditions of the FIFO queue: frozen-or-guarded fields, Lock/Unlock pairing, no blocking operation under the mutex, append-before-publish and receive-before-pop with the pop on the ok edge, capacity/channel agreement. Linearizability over interleavings is not decided.",
+            "go/types, go/cfg of x/tools v0.29.0; Go memory model; runtime channel semantics",
+            "DESIGN.md 5/C04"),
+    "C05": ("static analysis: frozen-field rule for the rendez-vous channel (EFFECT), octagon abstract interpretation of the capacity given to self-filling queue constructors (SYM), close/receive pairing (PATH)",
+            "Decides: the channel goroutines park on is never replaced; every function that creates a queue and fills it through the blocking AddValue gives it capacity >= number of values on all integers; CloseQueue closes the channel RemoveHead receives from with the two-value form. Absence of lost wake-ups over schedules is not decided.",
+            "go/types, go/cfg of x/tools v0.29.0; runtime channel semantics",
+            "DESIGN.md 5/C05"),
+    "C06": ("static analysis: go/cfg dominance and per-iteration must-pass rules, iterator typestate (Start/moved) and loop-form classification over the Fork/Split/Join helper goroutines (PATH)",
+            "Decides: wait-group Add/Done pairing around each helper goroutine, closing of every output on every path after the input is drained (covering traversal from Start), distribution shape (every output / exactly the next output / next input with wrap check). Conservation and order over schedules are not decided.",
+            "go/types, go/cfg of x/tools v0.29.0",
+            "DESIGN.md 5/C06"),
     "C13": ("static analysis: octagon abstract interpretation of the stack guards and of the capacity given at construction (SYM), call-site tables for the single mutation gate and the stack end",
             "Decides: no constructor builds a stack whose capacity is below its initial size (all integers), AddValue/RemoveTop guard exactly the full/empty states before touching storage, one end (slot 0 / index 1), views delegate, storage mutated only through the three gates. LIFO over histories is not decided.",
             "go/types of x/tools v0.29.0; spec tables in checker/c13.go; relies on the list's own correctness (C01)",
